@@ -1,3 +1,3 @@
 SPECIFICATION Spec
-INVARIANTS MarkersAreHeaders InterMapsOnce
+INVARIANTS MarkersAreHeaders InterMapsOnce DatesAreNotices WrappedMapsLikeBare
 CHECK_DEADLOCK FALSE
